@@ -67,9 +67,8 @@ def contracts():
                # else: no method / extension-method marking (it would take
                # over every method call of the name inside the scope), no
                # parameter declarations
-               'len(calls[0][1][1].decos) == 1 and '
-               'calls[0][1][1].decos[0][0] == "name" and '
-               'calls[0][1][1].decos[0][1][0] == name'])
+               'all([d[0] == "name" and d[1][0] == name '
+               'for d in calls[0][1][1].decos])'])
     c('send_context', params=dict(left=TVal, right=TFunc(1)),
       ensures=['len(calls) == 1 and calls[0][1][0] == left',
                'result == calls[0][2]'])
